@@ -821,6 +821,15 @@ def bulk_prefix_writer(prog, f):
     return r
 
 
+def _is_mut_borrow(f, d):
+    b, i = d[0], d[1]
+    try:
+        st = f.blocks[b]["stmts"][i]
+        return not (st["k"] == "assign" and st["rv"]["k"] in ("ref", "rawptr") and not st["rv"].get("mut"))
+    except (IndexError, KeyError, TypeError):
+        return True
+
+
 def _bulk_prefix_writer(prog, f):
     from framing_slices import as_slice, strip_ref
     fa = FA(f, prog)
@@ -829,8 +838,9 @@ def _bulk_prefix_writer(prog, f):
     by = {}
     for b, t in calls:
         by.setdefault(callee_of(t), []).append(b)
+    CAPACITY = "tinyvec::ArrayVec::<A>::capacity"
     allowed = {STR_LEN, STR_BYTES, STR_BOUNDARY, EXTEND, AS + "::new", "core::cmp::Ord::min", "core::cmp::min",
-               "core::slice::index::<impl core::ops::Index<I> for [T]>::index"}
+               "core::slice::index::<impl core::ops::Index<I> for [T]>::index", CAPACITY}
     extra = [c for c in by if c not in allowed and not (c or "").startswith("core::cmp::impls::<impl core::cmp::Ord for usize>::min")]
     if extra:
         return False, "other calls: %s" % extra[:3]
@@ -874,7 +884,20 @@ def _bulk_prefix_writer(prog, f):
         a, b_ = x.args[1]
         ln = [y for y in (a, b_) if (y.op == "call" and y.args[0] == STR_LEN and same_str(y.args[1][0])) or (y.op == "len" and same_str(y.args[0]))]
         cap = [y for y in (a, b_) if y not in ln]
-        # the other operand is the capacity: the const generic N of ArrayString<N> (an opaque constant in generic MIR)
+        # the other operand is the capacity: the const generic N of ArrayString<N> (an opaque constant in generic MIR), or capacity() of the
+        # byte vector of an ArrayString local (the receiver is checked to be a fresh one below; every ArrayString<N> in this body has the same N)
+        if len(ln) == 1 and len(cap) == 1 and cap[0].op == "call" and cap[0].args[0] == CAPACITY:
+            r_ = cap[0].args[1][0]
+            while r_.op in ("ref", "mem", "memval"):
+                r_ = r_.args[0]
+            if r_.op in ("pf", "field") and r_.args[1] == 0:
+                b_ = r_.args[0]
+                while b_.op in ("mem", "memval", "ref"):
+                    b_ = b_.args[0]
+                if b_.op == "loc":
+                    return f.locals[b_.args[1]].get("path") == "util::array_string::ArrayString"
+                return b_.op == "call" and b_.args[0] == AS + "::new"
+            return False
         return len(ln) == 1 and len(cap) == 1 and cap[0].op == "opaque_const" and "N" in [str(z) for z in cap[0].args]
     if not (len(inits) == 1 and is_min(inits[0])):
         return False, "E does not start at min(value.len(), N): %s" % [show(x, names) for x in inits]
@@ -905,7 +928,9 @@ def _bulk_prefix_writer(prog, f):
             val = fa.defterm(L, ds[0][0], ds[0][1], ds[0][2])
             # the only definition is the constructor call, and the only borrow of the vector is the one handed to extend_from_slice
             nb = [d for d in fa.defs(L) if d[2] == "borrow"]
-            fresh = val.op == "call" and val.args[0] == AS + "::new" and len(nb) <= 1
+            # shared borrows (capacity()) do not write; at most one mutable borrow, the one handed to extend_from_slice
+            nbm = [d for d in nb if _is_mut_borrow(f, d)]
+            fresh = val.op == "call" and val.args[0] == AS + "::new" and len(nbm) <= 1
     if not fresh:
         return False, "the receiver is not the byte vector of a fresh ArrayString::new(): %s" % show(recv, names)
     # no other panic-capable construct: the only Assert is the decrement's overflow check
